@@ -69,7 +69,7 @@ def run(ctx, pool):
                 "membranes / feed states, answers compared with the standalone calculation; plus process runs (see C01) with a standalone "
                 "re-evaluation at every reported step; non-trivial = distinct covered table rows + distinct returned runs",
         "table_rows": len(combos), "table_rows_covered": len(covered), "events": hist, "clauses": CLAUSES,
-        "entry_session_states": r.distinct,
+        "entry_session_states": r.distinct, "spec_states": r.distinct,
         "samples": [tw.traces[0][:3], tw2.traces[0][:2]],
     }
     res["required_events"] = {k: hist.get(k, 0) for k in ("Question", "Answer", "State")}
